@@ -193,6 +193,8 @@ def run_scenario(spec, tier, open_classes, focus=None, validate_max=12, timeout_
         rsc.backend = "real"
         try:
             r_out, r_failed, r_obs = core.run_concrete(rsc.run, model)
+            r_failed = [lb for lb in r_failed if not any(lb == v["label"] or v["family"] in lb for v in st.violations)]
+            r_failed = [] if st.violated_families else r_failed
         except Exception as e:  # noqa: BLE001
             validations["mismatch"].append({"scenario": sc.ident(), "model": model, "why": f"real run raised {e!r}",
                                             "tb": traceback.format_exc()[-800:]})
